@@ -19,6 +19,7 @@ def warm_imports() -> None:
     import guppylang.std.quantum  # noqa: F401
     import guppylang.std.angles  # noqa: F401
     import guppylang.std.option  # noqa: F401
+    import guppylang.std.either  # noqa: F401
     import guppylang_internals.cfg.builder  # noqa: F401
     import guppylang_internals.checker.func_checker  # noqa: F401
     import guppylang_internals.compiler.core  # noqa: F401
@@ -80,6 +81,9 @@ PRELUDE = """\
 from guppylang import guppy, qubit, comptime
 from guppylang.std.builtins import array, owned, result, nat, py
 from guppylang.std.quantum import h, x, cx, measure, discard
+from guppylang.std.builtins import int as gint, float as gfloat
+from guppylang.std.option import Option, nothing, some
+from guppylang.std.either import Either, left, right
 from collections.abc import Callable
 """
 
